@@ -112,7 +112,7 @@ func c15DocxTable(el *c15El) string {
 	b.WriteString(`</w:tblGrid>`)
 	for r := 0; r < el.Nr; r++ {
 		b.WriteString(`<w:tr>`)
-		if el.Hdr && r == 0 {
+		if c15Marked(el, r) {
 			b.WriteString(`<w:trPr><w:tblHeader/></w:trPr>`)
 		}
 		for c := 0; c < el.Nc; c++ {
@@ -286,7 +286,25 @@ func c15OdtList(items []c15Item, pos *int, depth int, b *strings.Builder, style 
 func c15OdtTable(el *c15El, n int) string {
 	var b strings.Builder
 	fmt.Fprintf(&b, `<table:table table:name="T%d"><table:table-column table:number-columns-repeated="%d"/>`, n, el.Nc)
+	// marked rows go into <table:table-header-rows> (a run of consecutive marked rows per
+	// wrapper), unless a merged cell would be cut by the wrapper's boundary
+	wrap := func(r int) bool {
+		if !c15Marked(el, r) {
+			return false
+		}
+		lo, hi := r, r+1
+		for lo > 0 && c15Marked(el, lo-1) {
+			lo--
+		}
+		for hi < el.Nr && c15Marked(el, hi) {
+			hi++
+		}
+		return !c15Crosses(el, lo) && !c15Crosses(el, hi)
+	}
 	for r := 0; r < el.Nr; r++ {
+		if wrap(r) && (r == 0 || !wrap(r-1)) {
+			b.WriteString(`<table:table-header-rows>`)
+		}
 		b.WriteString(`<table:table-row>`)
 		for c := 0; c < el.Nc; c++ {
 			s := el.Src[r][c]
@@ -313,6 +331,9 @@ func c15OdtTable(el *c15El, n int) string {
 			b.WriteString(`</table:table-cell>`)
 		}
 		b.WriteString(`</table:table-row>`)
+		if wrap(r) && (r == el.Nr-1 || !wrap(r+1)) {
+			b.WriteString(`</table:table-header-rows>`)
+		}
 	}
 	b.WriteString(`</table:table>`)
 	return b.String()
@@ -387,6 +408,9 @@ func c15ColName(c int) string { return string(rune('A' + c)) }
 func c15XlsxExpressible(el *c15El) bool {
 	if c15Degenerate(el) {
 		return false
+	}
+	if el.Hm != "none" && el.Hm != "first" && el.Hm != "" {
+		return false // a sheet has no header marking: the other markings would repeat the same file
 	}
 	nonEmpty := func(r, c int) bool {
 		s := el.Src[r][c]
@@ -505,7 +529,14 @@ func c15Pptx(c *c15Case) (string, map[int]bool, error) {
 				continue
 			}
 			var t strings.Builder
-			t.WriteString(`<a:tbl><a:tblPr firstRow="1"/><a:tblGrid>`)
+			if el.Hm != "none" && el.Hm != "first" && el.Hm != "" {
+				continue // PresentationML marks at most the first row (firstRow)
+			}
+			if c15Marked(el, 0) {
+				t.WriteString(`<a:tbl><a:tblPr firstRow="1"/><a:tblGrid>`)
+			} else {
+				t.WriteString(`<a:tbl><a:tblPr/><a:tblGrid>`)
+			}
 			for cc := 0; cc < el.Nc; cc++ {
 				t.WriteString(`<a:gridCol w="1000000"/>`)
 			}
